@@ -526,6 +526,17 @@ impl World {
                 })());
                 Observed::NoCall
             }
+            Op::HardLink { layer, path, to } => {
+                let full = self.layer_path(*layer).join(OsStr::from_bytes(path));
+                let target = to_path(&self.root, to);
+                harness((|| {
+                    if let Some(parent) = full.parent() {
+                        fs::create_dir_all(parent)?;
+                    }
+                    fs::hard_link(&target, &full)
+                })());
+                Observed::NoCall
+            }
             Op::Implicit { layer, which, .. } => {
                 // take the resulting entry from the model (it is a pure harness-side mutation)
                 let rel = snap::join(&model_after.ldir(*layer), IMPLICIT_NAMES[*which].as_bytes());
